@@ -601,7 +601,10 @@ func (st *Runtime) executeTry(try *TryNode) (returnValue reflect.Value) {
 
 		// copy buffered render output to writer only if no panic occured
 		if r == nil {
-			io.Copy(writer, buf)
+			if _, err := io.Copy(writer, buf); err != nil {
+				// the destination failed: report it like any other failed write
+				try.error(err)
+			}
 		} else {
 			st.scope, st.context, st.content = scope, context, content
 			// st.Writer is already set to its original value since the later defer ran first
